@@ -123,7 +123,9 @@ def matchfile_from_alignment(
         raise ValueError("Version should >= 1.0.0")
 
     if not assume_part_unfolded:
-        # unfold score according to alignment
+        # unfold score according to alignment (on a copy of the alignment:
+        # the score ids are rewritten to those of the unfolded part)
+        alignment = [dict(a) for a in alignment]
         spart = score.unfold_part_alignment(spart, alignment)
 
     # Info Header Lines
